@@ -971,54 +971,149 @@ func TestVerifC31(t *testing.T) {
 		return true
 	}
 
-	// X: every byte string of length <= 3 (settings Z for length 3 only in the thorough tier)
 	cfgX := c31pick("A", "Z")
-	cfgX3 := cfgX
-	if !thorough {
-		cfgX3 = c31pick("A")
-	}
-	if mine() {
-		for _, c := range cfgX {
-			h.input(nil, c, nil)
-			for b0 := 0; b0 < 256; b0++ {
-				h.input([]byte{byte(b0)}, c, nil)
-			}
-		}
-		h.families["all-bytes-len<=1"] += 257
-	}
-	for b0 := 0; b0 < 256; b0++ {
-		if !mine() {
-			continue
-		}
-		for b1 := 0; b1 < 256; b1++ {
-			p := []byte{byte(b0), byte(b1)}
-			for _, c := range cfgX {
-				h.input(p, c, nil)
-			}
-		}
-		h.families["all-bytes-len2"] += 256
-	}
-	for b01 := 0; b01 < 65536; b01++ {
-		if !mine() {
-			continue
-		}
-		p := []byte{byte(b01 >> 8), byte(b01), 0}
-		for b2 := 0; b2 < 256; b2++ {
-			p[2] = byte(b2)
-			for _, c := range cfgX3 {
-				h.input(p, c, nil)
-			}
-		}
-		h.families["all-bytes-len3"] += 256
-	}
-	h.sample([]byte{0x41, 0x81, 0x07}, cfgX[0])
-	h.sample([]byte{0x41, 0x81, 0x00}, cfgX[0])
-	h.sample([]byte{0x3f, 0xe2, 0x1f}, cfgX[0])
-
-	// X4/X5: every string of length 4 (and 5: thorough) over the 32-value boundary alphabet
+	cfgS := c31pick("A", "T70", "Z", "M64", "S1", "E")
+	cfgH := c31pick("A", "S2")
 	na := len(c31alpha)
 	maxL := r.Pick(4, 5)
-	for L := 4; L <= maxL; L++ {
+	inAlpha := [256]bool{}
+	for _, b := range c31alpha {
+		inAlpha[b] = true
+	}
+	// coveredX: block is already part of family X4/X5 of this tier under settings A / Z
+	coveredX := func(p []byte) (a, z bool) {
+		if len(p) > maxL {
+			return false, false
+		}
+		for _, b := range p {
+			if !inAlpha[b] {
+				return false, false
+			}
+		}
+		return true, len(p) <= 4
+	}
+	inH := func(p []byte) bool { // already part of family H of this tier (settings A)
+		switch {
+		case len(p) == 4 && p[0] == 0x41 && p[1] == 0x82,
+			len(p) == 5 && p[0] == 0x40 && p[1] == 0x82 && p[4] == 0,
+			len(p) == 5 && p[0] == 0x41 && p[1] == 0x83 && thorough,
+			len(p) == 6 && p[0] == 0x41 && p[1] == 0x84 && p[2] == 0xff && p[3] == 0xff,
+			len(p) == 6 && p[0] == 0x41 && p[1] == 0x84 && p[2] == 0xfe && p[5] == 0xff,
+			len(p) == 7 && p[0] == 0x41 && p[1] == 0x85 && p[2] == 0xff && p[3] == 0xff && p[4] == 0xff:
+			return true
+		}
+		return false
+	}
+
+	// S: structured families: Huffman symbols x padding, integer encodings, representation sequences
+	partS := func() {
+		list, fams := h.structured()
+		for i, p := range list {
+			if !mine() {
+				continue
+			}
+			dupA, dupZ := coveredX(p)
+			dupA = dupA || inH(p)
+			for _, c := range cfgS {
+				if (dupA && c.name == "A") || (dupZ && c.name == "Z") {
+					continue
+				}
+				h.input(p, c, nil)
+			}
+			h.families[fams[i]]++
+		}
+		h.sample(c31hx("40 01 61 01 62 3f 21 be"), cfgS[0])
+		h.sample(c31hx("3f 80 80 80 80 80 80 80 80 80 80 00 82"), cfgS[0])
+	}
+
+	// H: every Huffman string of 2 bytes (3 bytes: thorough) as a value and as a name, and every
+	// 4-/5-byte Huffman string that starts inside the long codes (ff ff / ff ff ff / fe .. .. ff)
+	runH := func(p []byte) {
+		dupA, _ := coveredX(p)
+		for _, c := range cfgH {
+			if dupA && c.name == "A" {
+				continue
+			}
+			h.input(p, c, nil)
+		}
+	}
+	partHshort := func() {
+		for x := 0; x < 256; x++ {
+			if !mine() {
+				continue
+			}
+			for y := 0; y < 256; y++ {
+				runH([]byte{0x41, 0x82, byte(x), byte(y)})
+				runH([]byte{0x40, 0x82, byte(x), byte(y), 0x00})
+				runH([]byte{0x41, 0x84, 0xff, 0xff, byte(x), byte(y)})
+				runH([]byte{0x41, 0x85, 0xff, 0xff, 0xff, byte(x), byte(y)})
+				runH([]byte{0x41, 0x84, 0xfe, byte(x), byte(y), 0xff})
+			}
+			h.families["huffman-exhaustive-short"] += 5 * 256
+		}
+		h.sample(c31hx("41 85 fe 3f ff ff ff"), cfgH[0])
+	}
+	partH3 := func() {
+		for xy := 0; xy < 65536; xy++ {
+			if !mine() {
+				continue
+			}
+			p := []byte{0x41, 0x83, byte(xy >> 8), byte(xy), 0}
+			for z := 0; z < 256; z++ {
+				p[4] = byte(z)
+				runH(p)
+			}
+			h.families["huffman-exhaustive-3-bytes"] += 256
+		}
+	}
+
+	// X: every byte string of length <= 3 (settings Z for length 3 only in the thorough tier)
+	partX := func() {
+		cfgX3 := cfgX
+		if !thorough {
+			cfgX3 = c31pick("A")
+		}
+		if mine() {
+			for _, c := range cfgX {
+				h.input(nil, c, nil)
+				for b0 := 0; b0 < 256; b0++ {
+					h.input([]byte{byte(b0)}, c, nil)
+				}
+			}
+			h.families["all-bytes-len<=1"] += 257
+		}
+		for b0 := 0; b0 < 256; b0++ {
+			if !mine() {
+				continue
+			}
+			for b1 := 0; b1 < 256; b1++ {
+				p := []byte{byte(b0), byte(b1)}
+				for _, c := range cfgX {
+					h.input(p, c, nil)
+				}
+			}
+			h.families["all-bytes-len2"] += 256
+		}
+		for b01 := 0; b01 < 65536; b01++ {
+			if !mine() {
+				continue
+			}
+			p := []byte{byte(b01 >> 8), byte(b01), 0}
+			for b2 := 0; b2 < 256; b2++ {
+				p[2] = byte(b2)
+				for _, c := range cfgX3 {
+					h.input(p, c, nil)
+				}
+			}
+			h.families["all-bytes-len3"] += 256
+		}
+		h.sample([]byte{0x41, 0x81, 0x07}, cfgX[0])
+		h.sample([]byte{0x41, 0x81, 0x00}, cfgX[0])
+		h.sample([]byte{0x3f, 0xe2, 0x1f}, cfgX[0])
+	}
+
+	// XA: every string of length L over the 32-value boundary alphabet (length 5: settings A only)
+	partXA := func(L int, cfgs []*c31cfg) {
 		for a01 := 0; a01 < na*na; a01++ {
 			if !mine() {
 				continue
@@ -1035,7 +1130,7 @@ func TestVerifC31(t *testing.T) {
 					p[i] = c31alpha[x%na]
 					x /= na
 				}
-				for _, c := range cfgX {
+				for _, c := range cfgs {
 					h.input(p, c, nil)
 				}
 			}
@@ -1043,91 +1138,15 @@ func TestVerifC31(t *testing.T) {
 		}
 	}
 
-	// H: every Huffman string of 2 bytes (3 bytes: thorough) as a value and as a name, and every
-	// 4-/5-byte Huffman string that starts inside the long codes (ff ff / ff ff ff)
-	cfgH := c31pick("A", "S2")
-	inAlpha := [256]bool{}
-	for _, b := range c31alpha {
-		inAlpha[b] = true
-	}
-	covered := func(p []byte) bool { // already part of family X4/X5 of this tier
-		if len(p) > maxL {
-			return false
-		}
-		for _, b := range p {
-			if !inAlpha[b] {
-				return false
-			}
-		}
-		return true
-	}
-	runH := func(p []byte) {
-		dup := covered(p)
-		for _, c := range cfgH {
-			if dup && c.name == "A" {
-				continue
-			}
-			h.input(p, c, nil)
-		}
-	}
-	for x := 0; x < 256; x++ {
-		if !mine() {
-			continue
-		}
-		for y := 0; y < 256; y++ {
-			runH([]byte{0x41, 0x82, byte(x), byte(y)})
-			runH([]byte{0x40, 0x82, byte(x), byte(y), 0x00})
-			runH([]byte{0x41, 0x84, 0xff, 0xff, byte(x), byte(y)})
-			runH([]byte{0x41, 0x85, 0xff, 0xff, 0xff, byte(x), byte(y)})
-			runH([]byte{0x41, 0x84, 0xfe, byte(x), byte(y), 0xff})
-		}
-		h.families["huffman-exhaustive-short"] += 5 * 256
-	}
-	h.sample(c31hx("41 85 fe 3f ff ff ff"), cfgH[0])
+	// the small targeted families first, the bulk families last (a deadline cuts the bulk tail)
+	partS()
+	partHshort()
+	partX()
+	partXA(4, cfgX)
 	if thorough {
-		for xy := 0; xy < 65536; xy++ {
-			if !mine() {
-				continue
-			}
-			p := []byte{0x41, 0x83, byte(xy >> 8), byte(xy), 0}
-			for z := 0; z < 256; z++ {
-				p[4] = byte(z)
-				runH(p)
-			}
-			h.families["huffman-exhaustive-3-bytes"] += 256
-		}
+		partH3()
+		partXA(5, c31pick("A"))
 	}
-
-	// structured families: Huffman symbols x padding, integer encodings, representation sequences
-	cfgS := c31pick("A", "T70", "Z", "M64", "S1", "E")
-	inH := func(p []byte) bool { // already part of family H of this tier (settings A)
-		switch {
-		case len(p) == 4 && p[0] == 0x41 && p[1] == 0x82,
-			len(p) == 5 && p[0] == 0x40 && p[1] == 0x82 && p[4] == 0,
-			len(p) == 5 && p[0] == 0x41 && p[1] == 0x83 && thorough,
-			len(p) == 6 && p[0] == 0x41 && p[1] == 0x84 && p[2] == 0xff && p[3] == 0xff,
-			len(p) == 6 && p[0] == 0x41 && p[1] == 0x84 && p[2] == 0xfe && p[5] == 0xff,
-			len(p) == 7 && p[0] == 0x41 && p[1] == 0x85 && p[2] == 0xff && p[3] == 0xff && p[4] == 0xff:
-			return true
-		}
-		return false
-	}
-	list, fams := h.structured()
-	for i, p := range list {
-		if !mine() {
-			continue
-		}
-		dupX, dupH := covered(p), inH(p)
-		for _, c := range cfgS {
-			if (dupX && (c.name == "A" || c.name == "Z")) || (dupH && c.name == "A") {
-				continue
-			}
-			h.input(p, c, nil)
-		}
-		h.families[fams[i]]++
-	}
-	h.sample(c31hx("40 01 61 01 62 3f 21 be"), cfgS[0])
-	h.sample(c31hx("3f 80 80 80 80 80 80 80 80 80 80 00 82"), cfgS[0])
-	r.Set("bounds", fmt.Sprintf("all byte strings len<=3 (settings A,Z; len 3 with Z only in the thorough tier); all strings len 4..%d over a 32-byte boundary alphabet; all Huffman strings of 2%s bytes + ffff xx yy, ffffff xx yy, fe xx yy ff (settings A,S2); structured: Huffman symbol lists <=%d symbols (one per code length + EOS) x 8 paddings x 3 positions, integer encodings (min / padded / 8..11 continuation octets / overflow) in 9 positions, sequences of <=%d representations out of 24 (settings A,T70,Z,M64,S1,E); every input whole, split at every offset, byte-wise",
-		maxL, map[bool]string{false: "", true: " and 3"}[thorough], r.Pick(2, 3), r.Pick(3, 4)))
+	r.Set("bounds", fmt.Sprintf("all byte strings len<=3 (settings A,Z; len 3 with Z only in the thorough tier); all strings len 4 (A,Z)%s over a 32-byte boundary alphabet; all Huffman strings of 2%s bytes + ffff xx yy, ffffff xx yy, fe xx yy ff (settings A,S2); structured: Huffman symbol lists <=%d symbols (one per code length + EOS) x 8 paddings x 3 positions, integer encodings (min / padded / 8..11 continuation octets / overflow) in 9 positions, sequences of <=%d representations out of 24 (settings A,T70,Z,M64,S1,E); every input whole, split at every offset, byte-wise",
+		map[bool]string{false: "", true: " and len 5 (A)"}[thorough], map[bool]string{false: "", true: " and 3"}[thorough], r.Pick(2, 3), r.Pick(3, 4)))
 }
